@@ -17,8 +17,8 @@ Import ListNotations.
 Require Import Gram.Model.Term Gram.Model.DeBruijn Gram.Model.Eval Gram.Proofs.RewriteProofs.
 Require Import Gram.Model.Parser Gram.Model.ParserPost Gram.Spec.ScopeSpec Gram.Proofs.AlphaProofs.
 Require Import Gram.Spec.Typing Gram.Oracle.Infer Gram.Proofs.CtxProofs Gram.Proofs.WeakenProofs Gram.Proofs.WeakenInfer Gram.Proofs.RewriteTyping.
-Require Gram.Proofs.EvalEnvGroups Gram.Proofs.ReorderDefs Gram.Proofs.PGSimple Gram.Proofs.ReorderTyping.
-Require Gram.Model.Token Gram.Model.Grammar Gram.Proofs.ReassocProofs Gram.Proofs.Unambiguous Gram.Proofs.LayoutParens.
+Require Gram.Proofs.EvalEnvGroups Gram.Proofs.ReorderDefs Gram.Proofs.PGSimple Gram.Proofs.ReorderTyping Gram.Proofs.ReorderMixed.
+Require Gram.Model.Token Gram.Model.Grammar Gram.Proofs.ReassocProofs Gram.Proofs.Unambiguous Gram.Proofs.LayoutParens Gram.Proofs.ParensPrefix.
 
 Theorem C19_if_true : forall e e', step (TIf TTrue e e') = Some e.
 Proof. exact if_true_step. Qed.
@@ -167,4 +167,37 @@ Check C19_parenthesising_the_whole_program : forall toks memo raw m s lp rp,
   exists raw2 m2 s2, Parser.parse_stage1 (lp :: toks ++ [rp]) memo = (Parser.S1Tree raw2, m2, s2) /\
     ReassocProofs.strip (ParserPost.reassociate raw2) = ReassocProofs.strip (ParserPost.reassociate raw).
 Print Assumptions C19_parenthesising_the_whole_program.
+
+
+(* "Reordering INDEPENDENT function definitions", the evaluation side in full (Proofs/ReorderMixed.v): any sequence of adjacent
+   exchanges each of which swaps two function definitions, or a function definition with a computed one such that both
+   orders pass the corrected definition-order check (C01) - i.e. the computed definition cannot reach the function at all -
+   preserves the outcome. The check on the computed-first order is what "independent" has to mean: syntactic
+   non-occurrence is not enough (indep_hypothesis_fails: the recorded finding D7 through this rewrite). *)
+Theorem C19_reordering_independent_definitions_preserves_the_outcome : forall t t', EvalEnvGroups.okt' t -> ReorderMixed.reorder_steps t t' -> ReorderDefs.obs_equiv t t'.
+Proof. exact ReorderMixed.reorder_independent_definitions_outcome. Qed.
+Check C19_reordering_independent_definitions_preserves_the_outcome : forall t t', EvalEnvGroups.okt' t -> ReorderMixed.reorder_steps t t' -> ReorderDefs.obs_equiv t t'.
+Print Assumptions C19_reordering_independent_definitions_preserves_the_outcome.
+
+
+(* ... and around a chain PREFIX - `( a - b ) - c`, `( f x y ) z`, `( a * b ) / c`, any proper prefix of a maximal chain of any of
+   the three kinds, mixed operators included - where the derivation is re-bracketed rather than flagged
+   (Proofs/ParensPrefix.v). Together with C19_parentheses_are_redundant: parentheses around a sub-derivation or around a chain
+   prefix, the two kinds of node the final tree has. *)
+Theorem C19_parentheses_around_any_node : forall toks memo raw m s d top o len d2 lp rp,
+  Parser.parse_stage1 toks memo = (Parser.S1Tree raw, m, s) ->
+  Unambiguous.dt_ok d -> Unambiguous.root d = Grammar.Term -> Unambiguous.dyield d = map Parser.pk toks ->
+  (LayoutParens.PS top o len d d2 \/ exists k0, ParensPrefix.CXP k0 top o len d d2) ->
+  Parser.pk lp = Token.KLeftParen -> Parser.pk rp = Token.KRightParen ->
+  exists raw2 m2 s2, Parser.parse_stage1 (LayoutParens.ins lp rp o len toks) memo = (Parser.S1Tree raw2, m2, s2) /\
+    ReassocProofs.strip (ParserPost.reassociate raw2) = ReassocProofs.strip (ParserPost.reassociate raw).
+Proof. exact ParensPrefix.parens_around_final_node. Qed.
+Check C19_parentheses_around_any_node : forall toks memo raw m s d top o len d2 lp rp,
+  Parser.parse_stage1 toks memo = (Parser.S1Tree raw, m, s) ->
+  Unambiguous.dt_ok d -> Unambiguous.root d = Grammar.Term -> Unambiguous.dyield d = map Parser.pk toks ->
+  (LayoutParens.PS top o len d d2 \/ exists k0, ParensPrefix.CXP k0 top o len d d2) ->
+  Parser.pk lp = Token.KLeftParen -> Parser.pk rp = Token.KRightParen ->
+  exists raw2 m2 s2, Parser.parse_stage1 (LayoutParens.ins lp rp o len toks) memo = (Parser.S1Tree raw2, m2, s2) /\
+    ReassocProofs.strip (ParserPost.reassociate raw2) = ReassocProofs.strip (ParserPost.reassociate raw).
+Print Assumptions C19_parentheses_around_any_node.
 
